@@ -26,7 +26,7 @@ def main(tier: str) -> int:
     run.add_tlc("GridMC exhaustive (abstract design the getters read from)", res)
     if not res.ok:
         run.violation(f"model|{res.violated}", {"kind": "model"})
-    n = 2500 if tier == "quick" else 60000
+    n = 6000 if tier == "quick" else 120000
     evs = gd.generate(n, run.seed)
     res, rep = gd.validate(evs)
     run.add_tlc("GetterTrace validation", res)
